@@ -219,3 +219,39 @@ Definition open_ok (max : N) (asn hold rid : N) (caps : list cap) (fr : list N) 
     read_frame max fr = Some (1, body) /\ read_open body = Some v /\
     o_version v = 4 /\ o_as v = (if 65535 <? asn then 23456 else asn) /\ o_hold v = hold /\ o_id v = rid /\
     o_caps v = map cap_tlv caps.
+
+(* ---- RFC 6793 4.2.3: reconstructing the AS path from AS_PATH and AS4_PATH, on segment
+   lists <type, AS numbers> (1 = AS_SET, 2 = AS_SEQUENCE, 3/4 = confederation segments) *)
+Definition seg : Type := N * list N.
+Definition seg_hops (s : seg) : N :=
+  if fst s =? 1 then 1 else if fst s =? 2 then len (snd s) else 0.
+Fixpoint hops (l : list seg) : N :=
+  match l with [] => 0 | s :: t => seg_hops s + hops t end.
+
+(* the leading [n] hops of a path *)
+Fixpoint take_hops (n : N) (l : list seg) : list seg :=
+  match l with
+  | [] => []
+  | s :: t =>
+      if n =? 0 then []
+      else if fst s =? 2 then
+        let k := N.min n (len (snd s)) in
+        (2, firstn (N.to_nat k) (snd s)) :: take_hops (n - k) t
+      else if fst s =? 1 then s :: take_hops (n - 1) t
+      else s :: take_hops n t
+  end.
+
+Definition as4_reconcile (as_path as4_path : list seg) : list seg :=
+  if hops as_path <? hops as4_path then as_path
+  else take_hops (hops as_path - hops as4_path) as_path ++ as4_path.
+
+Definition seg_down (s : seg) : seg := (fst s, map as2 (snd s)).
+Definition not_confed (s : seg) : bool := negb (seg_confed s).
+
+(* ---- the receiving side of a negotiated codec, and message types (RFC 4271 4.1) *)
+Definition addpath_rx_for (c : codec) (f : N) : bool :=
+  match fam_state (fams c) f with Some s => addpath_rx s | None => false end.
+Definition negotiated (c : codec) (f : N) : bool :=
+  match fam_state (fams c) f with Some _ => true | None => false end.
+Definition msg_type (m : msg) : N :=
+  match m with MOpen _ _ _ _ => 1 | MReach _ _ _ _ | MUnreach _ _ | MEor _ => 2 | MNotif _ _ _ => 3 | MKeepalive => 4 | MRefresh _ => 5 end.
